@@ -341,7 +341,8 @@ class Run:
                 proc.call_soon(lambda: self.apply(['kill', arg], via='callback'))
                 ret = None
             elif kind in ('soon_ok', 'soon_raise'):
-                proc.call_soon(programs._make_cb(proc, 'raise' if kind == 'soon_raise' else 'ok', arg))
+                cb = programs._make_cb(proc, 'raise' if kind == 'soon_raise' else 'ok', arg)
+                cb.handle = proc.call_soon(cb)
                 ret = None
             elif kind == 'abort_task':
                 # fault: whoever drives the process gives up (e.g. asyncio.wait_for timed out) -> the stepping task is cancelled
